@@ -145,6 +145,14 @@ func CheckC11(e *fw.Env, l *Lab) {
 			e.Res.Inconc("deposit failed")
 			continue
 		}
+		// one case in ten: the bank authority has disabled sends of the transferred coin (after
+		// the deposits): keeper-level moves are not subject to the flag, and whatever the routes
+		// do about it they do it with and without the leftover balance
+		if e.R.Intn(10) == 0 {
+			w.App.BankKeeper.SetSendEnabled(ctxA, t.Denom, false)
+			w.App.BankKeeper.SetSendEnabled(ctxB, t.Denom, false)
+			hs.FeeCls += "+send-disabled"
+		}
 		oa := run.Do(w, ctxA, t, run.Mode{Kind: "H"})
 		ob := run.Do(w, ctxB, t, run.Mode{Kind: "H"})
 		e.Res.Eval()
